@@ -9,6 +9,15 @@ ROOT = os.path.dirname(os.path.dirname(os.path.abspath(__file__)))
 TECH = "bounded symbolic execution of the real Python source (symx: AST lifting + z3), exhaustive over all paths within the bounds; every path and every counterexample replayed on the unlifted code"
 
 CLAIMED = {
+    "C01": ("which changes a commit records: exclusion and missing-file filters (kernels)",
+            "The real filter_excluded over changes with SYMBOLIC old / new paths and symbolic excluded paths: a change is "
+            "passed on, unchanged and in order, iff neither of its paths lies in an excluded path (component-wise "
+            "containment). The real Commit._filter_iter_changes over every combination of versioned flags and kinds: "
+            "versioned entries whose file is missing are committed as deletions (and listed for unversioning), changes "
+            "between two unversioned states are not committed, everything else passes unchanged. The tree comparison "
+            "itself, the commit builder, the recorded revision tree and the failure path (builder.abort) are outside.",
+            "osutils.is_inside_any (Rust) replaced by a python model validated against it before each run; reporter and "
+            "tree are stubs"),
     "C04": ("ordering of the durable effects of commit / autopack (crash points between effects)",
             "The real RepositoryPackCollection._commit_write_group, allocate, autopack / _do_autopack / "
             "plan_autopack_combinations, _execute_pack_operations, _save_pack_names (+ diff / synchronise), "
@@ -223,7 +232,6 @@ CLAIMED = {
 }
 
 NOT_APPLICABLE = {
-    "C01": "commit is the composition of dirstate (Rust), inventory deltas, groupcompress/btree writers and file-system I/O; the quantified objects are tree shapes and fault positions (structure to enumerate), no kernel accepts a symbolic input",
     "C02": "per-file graph heads over a real repository (vcsgraph + pack indices, compiled); histories are DAG structure, not values a solver can range over",
     "C03": "whole-repository streaming between formats through compiled (de)serialisers and I/O; only the shape of the history varies",
     "C08": "depends on which inventories/texts are physically present in two real repositories (CHK maps, groupcompress - Rust)",
